@@ -502,7 +502,7 @@ theorem getCount_ok {v : Variant} {c : Count} {k : MakeKind} (hg : countGood v c
         intro hk; subst hk; exact absurd hg (by decide)
 
 theorem makeAlloc_some (k : MakeKind) (elem : Nat) (n : Int) (hn : n.toNat ≤ 4294967296) (he : elem ≤ 65536)
-    (hk : k = .slice → 0 ≤ n) : ∃ A, makeAlloc k elem n = some A ∧ A ≤ n.toNat * elem := by
+    (hk : k = .slice ∨ k = .reject → 0 ≤ n) : ∃ A, makeAlloc k elem n = some A ∧ A ≤ n.toNat * elem := by
   have hm : n.toNat * elem ≤ 281474976710656 :=
     Nat.le_trans (Nat.mul_le_mul hn he) (by decide)
   have hmk : 0 ≤ n → mk elem n = some (n.toNat * elem) := by
@@ -510,7 +510,8 @@ theorem makeAlloc_some (k : MakeKind) (elem : Nat) (n : Int) (hn : n.toNat ≤ 4
     have : ¬ (n < 0 ∨ n.toNat * elem > maxAlloc) := by unfold maxAlloc; omega
     simp only [mk, this, ↓reduceIte]
   cases k with
-  | slice => exact ⟨_, hmk (hk rfl), Nat.le_refl _⟩
+  | slice => exact ⟨_, hmk (hk (Or.inl rfl)), Nat.le_refl _⟩
+  | reject => exact ⟨_, hmk (hk (Or.inr rfl)), Nat.le_refl _⟩
   | guarded =>
     by_cases h0 : n < 0
     · exact ⟨0, by simp only [makeAlloc, h0, ↓reduceIte], Nat.zero_le _⟩
@@ -621,7 +622,13 @@ theorem dec_total_safe (v : Variant) (crcf : Bool → Bytes → Nat) (f : Fmt) (
     intro n off1 a hn
     obtain ⟨ho1, hrem, hslice⟩ := getCount_ok hc h hn
     unfold rem at hrem
-    obtain ⟨A, hA, hAle⟩ := makeAlloc_some k elem n (by omega) he hslice
+    by_cases hrej : k = .reject ∧ n < 0
+    · rw [if_pos hrej]; safe_arith
+    rw [if_neg hrej]
+    obtain ⟨A, hA, hAle⟩ := makeAlloc_some k elem n (by omega) he
+      (fun hk => hk.elim hslice (fun hr => by
+        have : ¬ n < 0 := fun hn => hrej ⟨hr, hn⟩
+        omega))
     simp only [hA]
     have hi := iter_safe (c := cost body) (raw := raw) (step := run v crcf body raw)
       (fun o ho => SafeN.mono (ih hb raw o ho hlen) (Nat.le_refl _) hm) n.toNat off1 ho1
